@@ -145,6 +145,7 @@ def run(case, ctx):
     totals = {"build": len(data)}
     _check_all(ctx, part, nodes, model, consistent, totals, -1, ["build"])
     filled_ids = set()
+    build_touched = False      # the counts under "build" are the build's own until something is filled / reset under that id
     for t, op in enumerate(case["events"]):
         ctx.step = t
         ctx.sim_time += 1
@@ -155,6 +156,8 @@ def run(case, ctx):
             else:
                 pts, tid, reset = data, op[1], True
             known = tid in model
+            if tid == "build":
+                build_touched = True
             ctx.call("C08:fill", part.fill, pts.copy(), tid, reset)
             routed = K.route(root, pts)
             m = model.setdefault(tid, {})
@@ -172,7 +175,7 @@ def run(case, ctx):
             ctx.state(d, min(len(leaves), 12), op[0], known, reset)
             if op[0] == "refill_build":
                 lc_b, lc_t = [int(v) for v in part.leaf_counts("build")], [int(v) for v in part.leaf_counts(tid)]
-                if consistent["build"] and totals["build"] == len(data) and lc_b != lc_t:
+                if consistent["build"] and totals["build"] == len(data) and not build_touched and lc_b != lc_t:
                     ctx.violation("refill", "C08:refill_reproduces_build",
                                   f"op {t}: filling the build data under id {tid!r} gives leaf counts {lc_t}, build gave {lc_b}")
                     raise EndRun()
@@ -181,6 +184,8 @@ def run(case, ctx):
                 ctx.probe("fill_with_no_points")
         elif op[0] == "reset":
             value, tid = op[1], op[2]
+            if tid == "build":
+                build_touched = True
             ctx.call("C08:reset", part.reset, value, tid)
             model[tid] = {id(n): value for n, _, _ in nodes}
             totals[tid] = 0
